@@ -162,8 +162,8 @@ def build(tier, repo):
     # the names stored into nrows / ncols are read off the stores themselves
     node = c.funcs["matrix_set_size"]
     body_txt = cx.strip_pp(c.text(node["b"], node["e"])) if hasattr(cx, "strip_pp") else c.text(node["b"], node["e"])
-    mr = re.search(r"(?:MAT_NROWS\(self\)|self->nrows)\s*=\s*(\w+)\s*;", body_txt)
-    mc = re.search(r"(?:MAT_NCOLS\(self\)|self->ncols)\s*=\s*(\w+)\s*;", body_txt)
+    mr = re.search(r"(?:MAT_NROWS\(self\)|self->nrows)\s*=\s*(?:\(\s*int\s*\)\s*)?(\w+)\s*;", body_txt)
+    mc = re.search(r"(?:MAT_NCOLS\(self\)|self->ncols)\s*=\s*(?:\(\s*int\s*\)\s*)?(\w+)\s*;", body_txt)
     if not mr or not mc:
         raise AnalysisError("matrix_set_size: stores to nrows/ncols not found")
     vr, vc = re.escape(mr.group(1)), re.escape(mc.group(1))
@@ -291,4 +291,13 @@ def build(tier, repo):
                              "the reduction of a one-element sequence returns the argument itself: the result aliases the operand",
                              "+reduce(...)", pf.norm_expr(v)[:60])
     r5.require(8)
+    from .. import cmisc_rules as mr5
+    r10 = chk.rule("C15-R10", "binary number slots test the type of `self` before reading it as a matrix (reflected calls pass any object)",
+                   "TypeError is raised exactly where the model has no answer; no memory of a foreign object is read as a matrix")
+    chk.note_analysed("binary_slots", mr5.operand_guard_rule(r10, cs["dense.c"], cs["dense.c"].order) + mr5.operand_guard_rule(r10, cs["sparse.c"], cs["sparse.c"].order))
+    r10.require(5)
+    r11 = chk.rule("C15-R11", "dimensions taken from Python ints stay in a wide integer until range-checked (size setters)",
+                   "size reassignment raises TypeError where the model has no answer (no truncation of 2**32+k, no wrapped product)")
+    chk.note_analysed("python_int_locals", mr5.int_narrowing_size_rule(r11, cs["dense.c"], cs["dense.c"].order) + mr5.int_narrowing_size_rule(r11, cs["sparse.c"], cs["sparse.c"].order))
+    r11.require(4)
     return chk
